@@ -73,6 +73,15 @@ def walk(c):
         yield from walk(c["x"])
 
 
+def join_over_none_ends(model, graph, ci, lpath, c2, rpath):
+    """some x of class ci and some y of class c2 both have None at the joined relationship end (None == None holds in
+    Python, NULL = NULL does not in SQL)"""
+    def has_none(c, name):
+        return any(nd["c"] not in G.EXTRA_NODES and (nd["c"] == c or c in MI.ancestors(model, nd["c"])) and nd["v"].get(name) is None
+                   for nd in graph["nodes"])
+    return len(lpath) == 1 and len(rpath) == 1 and has_none(ci, lpath[0]) and has_none(c2, rpath[0])
+
+
 @st.composite
 def c07_ir(draw, tier, exclude):
     model = draw(MI.model_ir(max_classes=4, grammar="orm", extras=False, uid=True, allow_underscore=False, allow_set=False))
@@ -106,6 +115,8 @@ def c07_ir(draw, tier, exclude):
                 c2 = var2 if var2 is not None else draw(st.integers(0, n_cls - 1))
                 lp, lt = draw(st.sampled_from(rp))
                 cands = [(p, t) for p, t in ref_paths(model, c2) if t == lt and len(p) == 1]
+                if "join_over_none_ends" in exclude:
+                    cands = [(p, t) for p, t in cands if not join_over_none_ends(model, graph, ci, lp, c2, p)]
                 if cands and len(lp) == 1:
                     var2 = c2
                     return {"c": "join", "lpath": lp, "rpath": draw(st.sampled_from(cands))[0]}
@@ -149,6 +160,8 @@ def c07_ir(draw, tier, exclude):
             pairs = [(lp, c2, p2) for lp, lt in rp if len(lp) == 1 for c2 in range(n_cls) if c2 != ci
                      and ci not in MI.ancestors(model, c2) and c2 not in MI.ancestors(model, ci)
                      for p2, t2 in ref_paths(model, c2) if t2 == lt and len(p2) == 1]
+            if "join_over_none_ends" in exclude:
+                pairs = [(lp, c2, p2) for lp, c2, p2 in pairs if not join_over_none_ends(model, graph, ci, lp, c2, p2)]
             if pairs:
                 lp, c2, p2 = draw(st.sampled_from(pairs))
                 var2 = c2
@@ -211,7 +224,18 @@ class C07(Check):
         f = set()
         for q in ir["queries"]:
             f |= {x for x in query_features(q) if x in ("object_literal", "two_variable_query")}
+            f |= self.none_join_features(ir, q)
         return f
+
+    @staticmethod
+    def none_join_features(ir, q):
+        if q["var2"] is None:
+            return set()
+        for c in q["conds"]:
+            for n in walk(c):
+                if n["c"] == "join" and join_over_none_ends(ir["model"], ir["graph"], q["var"], n["lpath"], q["var2"], n["rpath"]):
+                    return {"join_over_none_ends"}
+        return set()
 
     def extra_evidence(self):
         return dict(translator_accepted=self._accepted, translator_rejected=self._rejected, in_memory_raised=self._memraise)
@@ -284,7 +308,7 @@ class C07(Check):
                 raise ValueError(k)
 
             for qi, q in enumerate(ir["queries"]):
-                feats = query_features(q)
+                feats = query_features(q) | self.none_join_features(ir, q)
                 classes_ |= feats
                 cls = layer.clss[q["var"]]
                 dom = [o for o in model_objs if isinstance(o, cls)]
